@@ -380,8 +380,11 @@ Proof.
   assert (Hs2 : (nb * 2 ^ (jb - j') <= s)%nat) by nia.
   assert (Hs2lt : (s2 < 2 ^ (jb - j'))%nat) by (unfold s2; nia).
   assert (Hdd : length (block d jb nb) = (32 * 2 ^ jb)%nat).
-  { apply block_length. unfold len in Hlen'. pose proof (pow2_nat_Z jb). nia. }
-  pose proof (mtree_blocks node_hash R N (L * h) jb (block d jb nb) o' ltac:(nia) Hdd) as HM.
+  { apply block_length. unfold len in Hlen'. pose proof (pow2_nat_Z jb) as Hpz.
+    apply Nat2Z.inj_le. rewrite !Nat2Z.inj_mul, Nat2Z.inj_add, Hpz.
+    clear - Hlen' Hnb. change (Z.of_nat 32) with 32. change (Z.of_nat 1) with 1. nia. }
+  assert (HLh0 : 0 <= L * h) by (apply Z.mul_nonneg_nonneg; lia).
+  pose proof (mtree_blocks node_hash R N (L * h) jb (block d jb nb) o' HLh0 Hdd) as HM.
   rewrite <- Elv', <- Eh' in HM. specialize (HM Hnode' j' s2 Hjn Hs2lt).
   rewrite block_block in HM by assumption.
   replace (nb * 2 ^ (jb - j') + s2)%nat with s in HM by (unfold s2; lia).
@@ -395,10 +398,204 @@ Proof.
   assert (E1 : 2 ^ Z.of_nat jb = 2 ^ (Z.of_nat jb - zj) * 2 ^ zj) by (apply pow2_split; lia).
   assert (E2 : 2 ^ h = 2 ^ (h - zj) * 2 ^ zj) by (apply pow2_split; lia).
   rewrite E1, E2 in Ec'.
-  pose proof (pow2_pos (h - zj) ltac:(lia)).
-  nia.
+  assert (Ecc : tn * 2 ^ (h - zj) + Z.of_nat nb * 2 ^ (Z.of_nat jb - zj) = o' * 2 ^ (Z.of_nat jb - zj)).
+  { apply (Z.mul_reg_r _ _ (2 ^ zj)); [lia|].
+    replace ((tn * 2 ^ (h - zj) + Z.of_nat nb * 2 ^ (Z.of_nat jb - zj)) * 2 ^ zj)
+      with (tn * (2 ^ (h - zj) * 2 ^ zj) + Z.of_nat nb * (2 ^ (Z.of_nat jb - zj) * 2 ^ zj)) by ring.
+    rewrite Ec'. ring. }
+  clear - Ecc. lia.
 Qed.
 
 End Phase1.
 
-End_of_part_three_marker.
+
+(* ---------------------------------------------------------------- what the checking functions establish *)
+
+Lemma stx_hashes_spec tiles data : forall rjx rhs,
+  stx_hashes node_hash tiles data rjx = TOk rhs ->
+  Forall2 (fun jx hh => hash_at tiles data (fst jx) (snd jx) = TOk hh) rjx rhs.
+Proof.
+  induction rjx as [|[j x] r IH]; intros rhs H.
+  - cbn in H. injection H as <-. constructor.
+  - cbn [stx_hashes] in H. apply tbind_ok in H. destruct H as [hh [H1 H]].
+    apply tbind_ok in H. destruct H as [hs' [H2 H]]. injection H as <-.
+    constructor; [exact H1|apply IH; exact H2].
+Qed.
+
+Lemma fold_rev_rev hs : fold_rev node_hash (rev hs) = fold_hashes node_hash hs.
+Proof.
+  induction hs as [|a r IH]; [reflexivity|].
+  destruct r as [|b r]; [reflexivity|].
+  rewrite fold_hashes_cons2, <- IH. cbn [rev].
+  destruct (rev r ++ [b]) as [|c t] eqn:E; [destruct (rev r); discriminate|].
+  cbn [app fold_rev]. rewrite fold_left_app. reflexivity.
+Qed.
+
+Definition rest_ok (N : Z) (ord : order) (data : list str) (it : nat * tile) : Prop :=
+  let p := tile_parent (snd it) 1 N in
+  exists j dj di hh,
+    lookup p ord = Some j /\ nth_error data j = Some dj /\
+    hash_from_tile p dj (stored_hash_index (tL p * tH p) (tN (snd it))) = TOk hh /\
+    nth_error data (fst it) = Some di /\ tile_hash node_hash di = TOk hh.
+
+Lemma auth_rest_spec N ord tiles data : forall rest,
+  auth_rest node_hash N ord tiles data rest = TOk tt -> Forall (rest_ok N ord data) rest.
+Proof.
+  induction rest as [|[i t] r IH]; intros H; [constructor|].
+  cbn [auth_rest] in H.
+  destruct (lookup (tile_parent t 1 N) ord) as [j|] eqn:El; [|discriminate].
+  destruct (nth_error data j) as [dj|] eqn:Edj; [|discriminate].
+  destruct (Tile.hash_from_tile node_hash (tile_parent t 1 N) dj _) as [hh| |] eqn:Eh; try discriminate.
+  destruct (nth_error data i) as [di|] eqn:Edi; [|discriminate].
+  apply tbind_ok in H. destruct H as [hi [Eth H]].
+  destruct (str_eqb hh hi) eqn:Eq; [|discriminate]. apply str_eqb_eq in Eq. subst hi.
+  constructor; [|apply IH; exact H].
+  unfold rest_ok. cbn [fst snd]. exists j, dj, di, hh. auto.
+Qed.
+
+Lemma extract_spec tiles data : forall xj hs,
+  extract node_hash tiles data xj = TOk hs ->
+  Forall2 (fun xj hh => hash_at tiles data (snd xj) (fst xj) = TOk hh) xj hs.
+Proof.
+  induction xj as [|[x j] r IH]; intros hs H.
+  - cbn in H. injection H as <-. constructor.
+  - cbn [extract] in H. destruct (TileReader.hash_at node_hash tiles data j x) as [hh| |] eqn:E; try discriminate.
+    apply tbind_ok in H. destruct H as [hs' [H2 H]]. injection H as <-.
+    constructor; [exact E|apply IH; exact H2].
+Qed.
+
+Lemma Forall2_of_nth {A B} (P : A -> B -> Prop) : forall l l',
+  length l = length l' ->
+  (forall i a b, nth_error l i = Some a -> nth_error l' i = Some b -> P a b) -> Forall2 P l l'.
+Proof.
+  induction l as [|a l IH]; intros [|b l'] Hl H; try discriminate; constructor.
+  - apply (H O); reflexivity.
+  - apply IH; [cbn in Hl; lia|]. intros i x y Hx Hy. apply (H (S i)); assumption.
+Qed.
+
+Lemma Forall2_combine_l {A B C} (P : A * B -> C -> Prop) : forall (l : list A) (m : list B) (r : list C),
+  length l = length m -> Forall2 P (combine l m) r ->
+  Forall2 (fun a c => exists b i, nth_error l i = Some a /\ nth_error m i = Some b /\ P (a, b) c) l r.
+Proof.
+  induction l as [|a l IH]; intros [|b m] r Hl F; try discriminate.
+  - inversion F. constructor.
+  - cbn in F. inversion F as [|ab c lm r' Hab F' E1 E2]. subst. constructor.
+    + exists b, O. auto.
+    + cbn in Hl. specialize (IH m r' ltac:(lia) F'). revert IH. apply Forall2_impl_in.
+      intros a' c' _ [b' [i [H1 [H2 H3]]]]. exists b', (S i). auto.
+Qed.
+
+(* ---------------------------------------------------------------- phase 3: every tile is authenticated *)
+
+Section Phase3.
+Variables (h N : Z) (R : hash).
+Variables (tiles1 ext2 : list tile) (data : list str) (ord : order).
+Let tiles := tiles1 ++ ext2.
+Hypothesis HN : 0 <= N <= 2 ^ 62.
+Hypothesis Hext2 : Forall (phase2_tile h N) ext2.
+Hypothesis Hord : ord_ok ord tiles.
+Hypothesis Hlen : Forall2 (fun t d => len d = tW t * 32) tiles data.
+Hypothesis H1 : forall q T d, (q < length tiles1)%nat -> nth_error tiles1 q = Some T ->
+                              nth_error data q = Some d -> tile_auth R N T d.
+Hypothesis Hrest : Forall (rest_ok N ord data) (skipn (length tiles1) (combine (seq 0 (length tiles)) tiles)).
+
+Lemma shi0_bound x : x < stored_hash_index 0 N -> x < 2 ^ 63.
+Proof.
+  intros Hx. pose proof (first_index_le_double N ltac:(lia)) as Hd. unfold first_index in Hd.
+  assert (2 * 2 ^ 62 = 2 ^ 63) by reflexivity. lia.
+Qed.
+
+Lemma all_tiles_auth_n B : Forall (fun t => tL t <= B) tiles ->
+  forall n i t d, nth_error tiles i = Some t -> nth_error data i = Some d ->
+                  (Z.to_nat (B - tL t) <= n)%nat -> tile_auth R N t d.
+Proof.
+  intros HB. induction n as [|n IH]; intros i t d Ht Hd Hn.
+  all: destruct (Nat.lt_ge_cases i (length tiles1)) as [Hlt|Hge];
+    [apply (H1 i); [exact Hlt| unfold tiles in Ht; rewrite nth_error_app1 in Ht by exact Hlt; exact Ht | exact Hd]|].
+  all: assert (Hin2 : In t ext2) by
+      (unfold tiles in Ht; rewrite nth_error_app2 in Ht by exact Hge; eapply nth_error_In; exact Ht).
+  all: rewrite Forall_forall in Hext2; destruct (Hext2 t Hin2) as [x [t0 [s0 [e0 [Hx [Htfi [Hfullw [k Ek]]]]]]]].
+  all: assert (Hx0 : 0 <= x) by
+      (destruct (Z_lt_le_dec x 0) as [Hneg|]; [rewrite tile_for_index_neg in Htfi by exact Hneg; discriminate|assumption]).
+  all: pose proof (shi0_bound x Hx) as Hx63.
+  all: destruct (tile_for_index_spec _ _ _ _ _ Htfi ltac:(lia))
+      as [_ [_ [_ [_ [_ [_ [_ [_ [Hh1 [HH0 [HL0 [_ [_ [HN0 _]]]]]]]]]]]]]].
+  all: pose proof (tile_parent_spec t0 (Z.of_nat k) N ltac:(lia) ltac:(lia) HL0 HN0 ltac:(lia)) as Hps;
+    cbv zeta in Hps; rewrite HH0 in Hps; destruct Hps as [Hno Hyes].
+  all: pose proof (pow2_pos h ltac:(lia)) as Hph.
+  all: set (Lv := tL t0 + Z.of_nat k) in *; set (nt := tN t0 / 2 ^ (Z.of_nat k * h)) in *.
+  all: assert (Hnt0 : 0 <= nt) by (apply Z.div_pos; [lia|apply pow2_pos; nia]).
+  all: assert (HLt0 : 0 <= Lv) by (unfold Lv; lia).
+  all: assert (HLth : 0 <= Lv * h) by (apply Z.mul_nonneg_nonneg; lia).
+  all: pose proof (pow2_pos (Lv * h) HLth) as HpLt.
+  all: assert (Hform : t = mkTile h Lv nt (2 ^ h) /\ (nt + 1) * 2 ^ h <= N / 2 ^ (Lv * h)).
+  all: try (destruct (Z_le_gt_dec (N / 2 ^ (Lv * h)) (nt * 2 ^ h)) as [Hle|Hgt];
+    [ rewrite <- Ek in Hno; rewrite (Hno Hle) in Hfullw; cbn in Hfullw; discriminate
+    | rewrite <- Ek in Hyes; specialize (Hyes ltac:(lia)); rewrite Hyes in Hfullw; cbn [tW tH] in Hfullw;
+      split; [rewrite Hyes; f_equal; lia | lia] ]).
+  all: destruct Hform as [Et Hroom].
+  all: assert (EtH : tH t = h) by (rewrite Et; reflexivity);
+       assert (EtL : tL t = Lv) by (rewrite Et; reflexivity);
+       assert (EtN : tN t = nt) by (rewrite Et; reflexivity);
+       assert (EtW : tW t = 2 ^ h) by (rewrite Et; reflexivity).
+  (* the check made by auth_rest for this tile *)
+  all: pose proof (rest_in tiles (length tiles1) i t Ht Hge) as Hinr.
+  all: rewrite Forall_forall in Hrest; destruct (Hrest _ Hinr) as [j [dj [di [hh [Hlk [Hdj [Hhp [Hdi Hth]]]]]]]].
+  all: cbn [fst snd] in *.
+  all: rewrite Hd in Hdi; injection Hdi as <-.
+  all: set (p := tile_parent t 1 N) in *.
+  all: pose proof (tile_parent_spec t 1 N ltac:(lia) ltac:(lia) ltac:(lia) ltac:(lia) ltac:(lia)) as Hpp;
+    cbv zeta in Hpp; fold p in Hpp; rewrite EtH, EtL, EtN in Hpp; rewrite Z.mul_1_l in Hpp; destruct Hpp as [Hpno Hpyes].
+  all: assert (Hp63 : 0 <= stored_hash_index ((Lv + 1) * h) nt < 2 ^ 63).
+  all: try (apply no_overflow_index; [nia | lia |];
+    replace ((Lv + 1) * h) with (Lv * h + h) by ring; rewrite pow2_mul by lia;
+    pose proof (Z.mul_div_le N (2 ^ (Lv * h)) HpLt); nia).
+  all: assert (Hpform : tH p = h /\ tL p = Lv + 1).
+  all: try (destruct (Z_le_gt_dec (N / 2 ^ ((Lv + 1) * h)) (nt / 2 ^ h * 2 ^ h)) as [Hle|Hgt];
+    [ rewrite (Hpno Hle) in Hhp; cbn in Hhp; discriminate
+    | rewrite (Hpyes ltac:(lia)); cbn [tH tL]; split; reflexivity ]).
+  all: destruct Hpform as [EpH EpL].
+  all: rewrite EpH, EpL in Hhp.
+  all: apply lookup_in in Hlk; apply Hord in Hlk.
+  1: { (* n = 0: the parent would be above the bound *)
+       exfalso. rewrite Forall_forall in HB. pose proof (HB p (nth_error_In _ _ Hlk)).
+       pose proof (HB t (nth_error_In _ _ Ht)). lia. }
+  assert (Hpa : tile_auth R N p dj).
+  { apply (IH j p dj Hlk Hdj). rewrite Forall_forall in HB. pose proof (HB p (nth_error_In _ _ Hlk)). lia. }
+  destruct (hash_from_tile_auth R N p dj _ hh Hpa Hhp ltac:(lia)) as [l [o [Hsp Hnode]]].
+  rewrite (split_index ((Lv + 1) * h) nt ltac:(nia) Hnt0 ltac:(lia)) in Hsp. injection Hsp as <- <-.
+  (* the tile's own hash *)
+  set (Hn := Z.to_nat h).
+  assert (Hp2 : Z.of_nat (2 ^ Hn) = 2 ^ h) by (rewrite pow2_nat_Z; unfold Hn; rewrite Z2Nat.id by lia; reflexivity).
+  destruct (Forall2_nth _ _ _ _ _ Hlen Ht) as [d' [Hd' Hld]]. rewrite Hd in Hd'. injection Hd' as <-.
+  assert (Hlend : length d = (32 * 2 ^ Hn)%nat) by (unfold len in Hld; rewrite EtW in Hld; lia).
+  rewrite (tile_hash_spec node_hash Hn d Hlend) in Hth. injection Hth as <-.
+  replace ((Lv + 1) * h) with (Lv * h + Z.of_nat Hn) in Hnode by (unfold Hn; rewrite Z2Nat.id by lia; ring).
+  pose proof (mtree_blocks node_hash R N (Lv * h) Hn d nt HLth Hlend Hnode) as HM.
+  unfold tile_auth. rewrite EtH, EtL, EtN, EtW.
+  do 5 (split; [first [assumption | lia] |]).
+  intros j' s Hj' Hs.
+  assert (Hjn : (j' <= Hn)%nat) by (unfold Hn; lia).
+  assert (E : 2 ^ h = 2 ^ (h - Z.of_nat j') * 2 ^ Z.of_nat j') by (apply pow2_split; lia).
+  pose proof (pow2_pos (Z.of_nat j') ltac:(lia)). pose proof (pow2_pos (h - Z.of_nat j') ltac:(lia)).
+  assert (Hslt : (s < 2 ^ (Hn - j'))%nat).
+  { apply Nat2Z.inj_lt. rewrite pow2_nat_Z. replace (Z.of_nat (Hn - j')) with (h - Z.of_nat j') by (unfold Hn; lia).
+    rewrite E in Hs. nia. }
+  specialize (HM j' s Hjn Hslt).
+  replace (Z.of_nat (Hn - j')) with (h - Z.of_nat j') in HM by (unfold Hn; lia). exact HM.
+Qed.
+
+Lemma all_tiles_auth i t d :
+  nth_error tiles i = Some t -> nth_error data i = Some d -> tile_auth R N t d.
+Proof.
+  intros Ht Hd.
+  assert (HB : exists B, Forall (fun t => tL t <= B) tiles).
+  { clear. induction tiles as [|a l [B IH]]; [exists 0; constructor|].
+    exists (Z.max B (tL a)). constructor; [lia|]. revert IH. apply Forall_impl. intros; lia. }
+  destruct HB as [B HB].
+  apply (all_tiles_auth_n B HB (Z.to_nat (B - tL t)) i t d Ht Hd). lia.
+Qed.
+
+End Phase3.
+
+End_of_part_four_marker.
